@@ -1,6 +1,6 @@
 //! unit: u13b
-//! properties: C13
-//! note: wire::do_read (the type-id dispatch behind wire::read): a successfully decoded message is of the type that was announced on the wire - Message::type_id() of the result equals the two-byte type that was read - for every message type the library knows, and an unknown type is handed back as Unknown(type)
+//! properties: C13 C15
+//! note: wire::read (whole: a message that fails to decode is reported with the type announced on the wire, a failure to read the type without one) and wire::do_read (the type-id dispatch behind wire::read): a successfully decoded message is of the type that was announced on the wire - Message::type_id() of the result equals the two-byte type that was read - for every message type the library knows, and an unknown type is handed back as Unknown(type)
 //! trusted: env: the 50 message structs of ln::msgs are opaque unit structs (their codecs are the Kani harnesses' business); LengthReadable::read_from_fixed_length_buffer is an external_body blanket impl (any outcome); CustomMessageReader::read is an external_body stub (any outcome); the 50 `impl Encode for msgs::X { const TYPE }` items, the Message enum, `impl Type for Message :: fn type_id` and do_read are extracted
 //! trusted: R5: Message's bound `T: core::fmt::Debug + Type + TestEq` is reduced to `T: Type`; the blanket `impl<T: Encode> Type for T` is written here with the spec function tid() = T::TYPE beside its one-line body; R16 (`&Message::V(ref msg)` -> `Message::V(msg)`); R8: match arms on associated constants `msgs::X::TYPE => E` are written as guards `__t if __t == msgs::X::TYPE => E` (Verus has no associated constants in patterns); the specification spec_tid is derived mechanically from the extracted body of Message::type_id (same arms, `msg.type_id()` -> `msg.tid()`)
 //! trusted: assume_specification for core::cmp::max / core::cmp::min (std definitions): present in every unit so that a change that introduces them is verified instead of being rejected by the tool
@@ -237,6 +237,33 @@ impl<T: Type> Message<T> {
     msgs::TxRemoveOutput::TYPE => { Ok(Message::TxRemoveOutput(LengthReadable::read_from_fixed_length_buffer(buffer)?)) },
 //@with
     msgs::TxRemoveOutput::TYPE => { Ok(Message::TxRemoveInput(LengthReadable::read_from_fixed_length_buffer(buffer)?)) },
+//@end
+// wire::read: the two-byte type is read first; a message that then fails to decode is reported WITH the type that was announced (what the peer handler's
+// tolerance of undecodable gossip is decided on, u15h), a failure to read the type itself without one
+pub uninterp spec fn announced_type(b: Buf) -> u16;
+pub uninterp spec fn type_readable(b: Buf) -> bool;
+#[verifier::external_body] pub fn read_u16(buffer: &mut Buf) -> (r: Result<u16, msgs::DecodeError>) ensures (r is Ok) == type_readable(*old(buffer)), r is Ok ==> r->Ok_0 == announced_type(*old(buffer)) { unimplemented!() }
+//@extract lightning/src/ln/wire.rs :: fn read
+//@rw R5
+    fn read<R: LengthLimitedRead, T, H: CustomMessageReader<CustomMessage = T>>( buffer: &mut R, custom_reader: H, ) -> Result<Message<T>, (msgs::DecodeError, Option<u16>)> where T: core::fmt::Debug + Type + Writeable,
+//@with
+    fn read<T: Type>( buffer: &mut Buf, custom_reader: CustomReader<T>, ) -> Result<Message<T>, (msgs::DecodeError, Option<u16>)>
+//@rw R5
+    <u16 as Readable>::read(buffer)
+//@with
+    read_u16(buffer)
+//@rw * R9
+    .map_err(|e| (e, $v:seq))
+//@with
+    .map_err(|e: msgs::DecodeError| -> (o: (msgs::DecodeError, Option<u16>)) ensures o.1 == ($v) { (e, $v) })
+//@ret r
+//@ensures P C13,C15 a-message-that-fails-to-decode-is-reported-with-the-type-announced-on-the-wire-and-a-decoded-one-is-of-that-type
+    r is Ok && !(r->Ok_0 is Custom) ==> r->Ok_0.spec_tid() == announced_type(*old(buffer)),
+    r is Err ==> r->Err_0.1 == (if type_readable(*old(buffer)) { Some(announced_type(*old(buffer))) } else { None }),
+//@mutant decode_failure_reported_without_its_type
+    .map_err(|e| (e, Some(message_type)))
+//@with
+    .map_err(|e| (e, None))
 //@end
 }
 fn main() {}
